@@ -314,7 +314,40 @@ def check_strongin(tier, seed):
     return True, {}
 
 
+def predecessor(fam, arg):
+    """The member a user sweeping the family would have built just before this one (None for the first)."""
+    if fam in ("hill", "shekel"):
+        return arg - 1 if arg > 0 else None
+    if fam in ("grishagin", "shekel4", "rastrigin", "xsquared"):
+        return arg - 1 if arg > 1 else None
+    if fam == "gkls":
+        dim, k = arg
+        return (dim, k - 1) if k > 1 else ((dim - 1, 100) if dim > 2 else None)
+    return None
+
+
+def construction_history(fam, arg):
+    """The statement is about every instance however the process got to it: build (and evaluate) the preceding
+    member and the member itself once before the instance under test is built, as a sweep over the family does."""
+    hist = []
+    pred = predecessor(fam, arg)
+    for a in ([pred] if pred is not None else []) + [arg]:
+        p = bench.construct(fam, a)
+        pt, _ = bench.declared(p)
+        bench.real_eval(p, pt)
+        hist.append(p)
+    return hist
+
+
 def check_instance(fam, arg, tier, seed):
+    keep = construction_history(fam, arg)     # kept alive while the instance under test is built and checked
+    try:
+        return _check_instance(fam, arg, tier, seed)
+    finally:
+        del keep
+
+
+def _check_instance(fam, arg, tier, seed):
     if fam in ("hill", "shekel"):
         return check_1d(fam, arg, tier, seed)
     if fam == "grishagin":
